@@ -328,6 +328,7 @@ FossilChecks(r, p, g, n) ==
      <<\A i \in 1..n : hist[p][i].k = "e" => hist[p][i].t < g, "C03", "released an event that is not below the GVT">>,
      <<\A i \in 1..n : hist[p][i].k = "e" => hist[p][i].t < g, "C13", "reclaimed history at or above the GVT: a rollback to the committed frontier is no longer possible">>,
      <<\A i \in 1..n : hist[p][i].k = "e" => hist[p][i].t < g, "C06", "the buffer of a processed event that can still be cancelled or rolled back (timestamp not below the GVT) was released">>,
+     <<\A i \in 1..n : hist[p][i].k = "e" => hist[p][i].t < g, "C11", "a message buffer was released that a rollback of its sender can still access (timestamp not below the GVT): use after free">>,
      \* the kept history starts exactly at a kept checkpoint
      <<\E i \in 1..Len(ckpt[p]) : ckpt[p][i].ref = n, "C13", "kept history does not start at a kept checkpoint">>,
      <<~rb[r].on, "C13", "fossil collection inside a rollback">> >>
